@@ -51,6 +51,9 @@ type Stmt struct {
 	Name string   `json:"name"`
 	Lhs  string   `json:"lhs"`
 	Args []string `json:"args"`
+	// Lit: this call statement is written inside a func literal that is the last argument of the PREVIOUS statement of
+	// the body (already part of that statement's text); it is a statement of the function all the same
+	Lit bool `json:"lit"`
 }
 
 type GoImport struct {
